@@ -268,6 +268,22 @@ ADDED5 = {
 }
 
 
+ADDED6 = {
+ 'C01': ('', ' Round 6: every part of the CORS configuration is consulted on every path that leaves a header unset; end of input inside the head is an error.'),
+ 'C02': ('', ' Round 6: body bytes are appended as bytes (no text decoding on the way into Vec<u8>); a proxy entry leaves the forwarded chain only as the single last element.'),
+ 'C04': ('', ' Round 6: whether a request is upgraded to a WebSocket does not depend on the registered HTTP routes.'),
+ 'C06': ('', ' Round 6: the percent-decoder the handlers use is the C18 decoder rule (two hex digits of either case, value = 16*hi+lo, everything else copied).'),
+ 'C07': ('', ' Round 6: chunk sizes are parsed as hexadecimal in either case; the head has exactly one CRLF per line and one blank line.'),
+ 'C08': ('', ' Round 6: a worker\'s id is its index in the worker vector (the recovery thread replaces the slot it was told about).'),
+ 'C10': ('', ' Round 6: every read of the frame decoder is exact and its failure maps to ReadError only.'),
+ 'C13': ('', ' Round 6: the Number value is f64::from_str of exactly the scanned token; the serialiser\'s panic-site inventory is empty or reviewed.'),
+ 'C15': ('', ' Round 6: numeric keys are parsed with the integer type of their documented range.'),
+ 'C17': ('', ' Round 6: the password is checked only against the user the uid lookup returned; an unknown uid yields false.'),
+ 'C19': ('', ' Round 6: every line of the blacklist file becomes an entry and every entry is parsed into the enforced list (only blank / comment lines may be left out).'),
+ 'C20': ('', ' Round 6: the accept cycle makes no blocking socket call; the async accept loop suspends only in the select that also polls the shutdown future.'),
+}
+
+
 NOT_APPLICABLE = {
     "C05": "Correctness of the wildcard matcher is a language-equivalence fact about a loop with data-dependent backtracking over all "
            "(pattern, text) pairs; no necessary condition visible in the shape of the code separates the current (wrong on '*aab'/'aaab') "
@@ -294,6 +310,8 @@ def main():
                 tech, text = tech + ADDED4[pid][0], text + ADDED4[pid][1]
             if pid in ADDED5:
                 tech, text = tech + ADDED5[pid][0], text + ADDED5[pid][1]
+            if pid in ADDED6:
+                tech, text = tech + ADDED6[pid][0], text + ADDED6[pid][1]
             checks.append({
                 "property_id": pid,
                 "quick_cmd": f"./check {pid} --tier quick",
